@@ -214,9 +214,8 @@ theorem binArith_dang (c : Core) (op : Opc) (w : String) :
     (binArith c op).2 = .dangling w → (binArith c op).1.heap.dangling = true := by
   unfold binArith
   simp only
-  generalize (if (op == Opc.MOD) = true then (c.pop.1.pop.2, c.pop.2) else (coerceEnum c.pop.1.pop.2, coerceEnum c.pop.2)) = p
-  obtain ⟨A, B⟩ := p
-  simp only
+  generalize coerceEnum c.pop.1.pop.2 = A
+  generalize coerceEnum c.pop.2 = B
   (repeat' split) <;> simp [cont, errS, unsup, dang, Heap.markDangling]
 
 theorem dang_marks (m : Module) (fr : Frame) (c : Core) (is : Nat) (op : Opc) (args : List Nat) (w : String) :
